@@ -89,11 +89,23 @@ def run(ck):
         f = variants_fail(s)
         if f:
             ck.oracle_fail({'bytes': list(s), 'variants': True}, f)
+    # sessions in which an earlier step matters: a feeding call left by an exception after it completed a message, a sysex
+    # continued by long bytes chunks, ...: nothing may be raised on valid bytes, nothing invented or lost
+    from . import C05 as c05
+    sess = c05.special_sessions(ck.rng, 1200 if ck.tier == 'quick' else 12000)
+    for h, (lines, fail) in zip(sess, pool_map(c05.run_history, sess, chunksize=200)):
+        ck.evaluations += 1
+        ck.count('sessions')
+        if fail:
+            ck.oracle_fail({'session': h}, fail)
     envprobe.check(ck, ['parse', 'parser'])
     return ck.finish(RULE, assumptions=['inputs are integers 0..255 (other items raise TypeError/ValueError by contract)'])
 
 
 def oracle(case):
+    if 'session' in case:
+        from . import C05 as c05
+        return c05.oracle({'ops': case['session']})
     if 'environment' in case:
         return envprobe.oracle(case)
     if case.get('variants'):
